@@ -287,7 +287,7 @@ CHECKS = {
             "image of the surviving records (rows_in_order, chapter_fields, chapters_aligned, record_deep_aligned at every chapter depth, del_exact_index/slice, "
             "del_out_of_range, pop_exact_deep/del_exact_deep), select columns, stream_positional (every position delivered at most once, all exactly once after a final "
             "stream; needs no distinctness), stream_at_most_once/stream_exactly_once (by value, for pairwise different records), header_once at full strength and "
-            "header_first (F5 repaired and modelled), compile_spec/multi_compile_spec; the TEXT: Core/LogbookText.lean transcribes __txt__ completely (column discovery, "
+            "header_first (F5 repaired and modelled), compile_spec/multi_compile_spec; MultiStatistics and its Statistics objects as MUTABLE state (Core/StatsHist.lean: heap of objects + dict name -> object, histories of alloc / register / ms.register / ms[k]= / del / update / |= / setdefault / pop / popitem / clear / fields / compile of any length): compile_after_history (fields / compile evaluations can be struck out of a history; compile = one Stats.compile record per item of the CURRENT dict), multi_compile_keys (keys of the record = keys of the dict, each once), register_overrides / register_overrides_multi (latest registration with its frozen arguments wins, in every stored object), fields_sorted_current; replayed step by step against deap.tools.MultiStatistics (`C18 mhist`), oracle after every compile; the TEXT: Core/LogbookText.lean transcribes __txt__ completely (column discovery, "
             "columns_len as pickled state, recursive chapter blocks with offsets, header block, '{0:n}' / '{0}' cell formatting for ints, None, strings and every "
             "double by exact rational arithmetic, center / expandtabs / left-justified tab template) and txt_shape, row_line_cells, str_all_rows, str_history, "
             "chapter_text_aligned (every logbook aligned at every depth: no raise, header block ++ exactly one formatted line per record, chapter blocks as long as "
